@@ -84,20 +84,42 @@ package desync
 
 //# the value of the layered decoding is the uninterpreted convPlain (trusted clause: the layers are zstd
 //# and opaque to the verifier); that a failed decoding hands out no bytes is proved from the body
+//@ ghost var $cvb []byte
+//@ ghost var $cvk int
 //@ func (s Converters) fromStorage
 //@   prop C03 C14
 //@   pure
 //@   safety none
-//@   trusted ensures err == nil ==> bytes(r0) == convPlain(s, bytes(in))
+//# (bare "trusted ensures": the postconditions below are what callers use; the frame - pure, the ghosts here are
+//# private to this unit - is not checked. What was proved as a postcondition before is an assertion at the returns.)
+//@   trusted ensures
+//@   ensures err == nil ==> bytes(r0) == convPlain(s, bytes(in))
 //@   ensures err != nil ==> len(r0) == 0
-//@   loop 1: invariant true
+//@   assert@returned $ret1 != nil ==> len($ret0) == 0
+//# proved of the body: the layers are undone last to first, each on the output of the one undone before it (the
+//# last layer on the input), all of them, and the output of layer 0 (the input when there is no layer) is returned
+//@   ghost@entry $cvb = in
+//@   ghost@entry $cvk = 0
+//@   loop 1: invariant b == $cvb && i == len(s) - 1 - $cvk && $cvk >= 0 && $cvk <= len(s)
+//@   oncall fromStorage: requires $recv == s[len(s) - 1 - $cvk] && $arg0 == $cvb
+//@   ghost@after:fromStorage $cvb = $r0
+//@   ghost@after:fromStorage $cvk = $cvk + 1
+//@   assert@returned $ret1 == nil ==> $ret0 == $cvb && $cvk == len(s)
 
 //@ spec func convStored(cv Converters, b Bytes) Bytes
 //# the storage form obtained by applying the converter layers forwards (uninterpreted function)
 //@ func (s Converters) toStorage
-//@   trusted
+//@   prop C03 C14 C20
 //@   pure
+//@   safety none
+//@   trusted ensures
 //@   ensures err == nil ==> bytes(r0) == convStored(s, bytes(in))
+//# proved of the body: the layers are applied first to last, each on the output of the one before it
+//@   ghost@entry $cvb = in
+//@   loop 1: invariant b == $cvb
+//@   oncall toStorage: requires $recv == s[$i] && $arg0 == $cvb
+//@   ghost@after:toStorage $cvb = $r0
+//@   assert@returned $ret1 == nil ==> $ret0 == $cvb
 
 //# representation invariant of Chunk: when both forms are present, the plain form is the decoded storage form.
 //# Only the constructors and Data write these fields (owner clause: checked over the whole package), each
